@@ -111,6 +111,8 @@ package symbols
 //@   loop 2 invariant forall k int :: 0 <= k && k < rangeindex + 1 ==> optionalArgs[k] is ast.ApplyFn && len((optionalArgs[k] as ast.ApplyFn).Args) == 2
 //@   loop 2 atexit forall k int :: 0 <= k && k < len(optionalArgs) ==> optionalArgs[k] is ast.ApplyFn && len((optionalArgs[k] as ast.ApplyFn).Args) == 2
 //@   guard return in loop 2: err != nil
+// ... and the type of every optional field (the second argument of fn:opt) is itself checked
+//@   guard call WellformedType in loop 2: arg1 == optApply.Args[1]
 
 // ---- C12: a lower bound has no member outside its inputs -------------------------------------------------------
 // member(ctx, t, c): constant c is a member of type expression t (abstract). ASSUMED about it: equal expressions
